@@ -14,35 +14,36 @@
        own also comment lines - after the count: since fc0735f the code validates them);
      - edge lines  lead u gu v gv w gw  with parse_float w = FOk x ([+-]?digits[.digits]?), repeated edges,
        blank lines (and, for read_graph on its own, comment lines) between them.
-   NOT modelled: the stored width G.graph["w"] (stDiGraph.get_width: networkx condensation + network simplex).
-   The round-trip theorems are therefore named _partial; the width clause is checked per instance by the engine. *)
+   What the code does with counts and width (graphutils.read_graph as of /repo 29f2322): the format has ONE count
+   field, the vertex-count line; it is parsed with int(), compared with 0 (0: validate-empty and return early) and
+   then dropped - it is stored nowhere and never compared with the number of nodes.  The format has NO width field.
+   G.graph["n"], ["m"], ["w"] are computed from the parsed edges: number_of_nodes(), number_of_edges(),
+   stDiGraph(G).get_width().  [graph] / [ginfo] are the complete attribute set of the result (G.graph keys exactly
+   id, constraints [, n, m, w]; edge attribute exactly "flow"; no node attributes) - the engine compares key sets.
+   gi_w is modelled by the value get_width is specified to return (largest antichain of condensation items, exhaustive
+   search, C20_stored_width_is_max_antichain); the code's own route (networkx condensation + network simplex) is an
+   external engine (DESIGN §4) and is tied per instance by the engine. *)
 From Coq Require Import String Ascii.
 From Coq Require Import List NArith ZArith Bool Arith Lia.
 Import ListNotations.
-From FP Require Import Parser ParserProofs1 ParserProofs2 ParserProofs3 ParserProofs4.
+From FP Require Import Parser ParserProofs1 ParserProofs2 ParserProofs3 ParserProofs4 ParserProofs5.
 Local Open Scope N_scope.
-
-(* The clause that is not proved, as a statement about any function [stored_w] that would extend the model by the
-   stored width, and any definition [min_walk_cover] of "fewest source-to-sink walks of the condensation covering all edges". *)
-Definition C20_width_clause_statement (min_walk_cover : list wedge -> nat) (stored_w : list str -> list (option nat)) : Prop :=
-  forall pre bs, Forall (fun l => is_hdr l = false) pre -> Forall wf_fblock bs ->
-    stored_w (pre ++ concat (map render_block bs)) =
-    map (fun b => if (b_n b =? 0)%Z then None else Some (min_walk_cover (listed (b_body b)))) bs.
 
 (* ---------------------------------------------------------------- faithful parsing *)
 (* whole files: every block comes back as its denotation (first header text as id, one constraint per distinct
-   '#S' node sequence of >= 2 nodes as consecutive pairs, nodes / edges / n / m of the listed edges); no OutOfFuel *)
-Theorem C20_read_render_partial : forall (pre : list str) (bs : list bdesc),
+   '#S' node sequence of >= 2 nodes as consecutive pairs, nodes / edges / n / m / w of the listed edges - every stored
+   attribute); no OutOfFuel *)
+Theorem C20_read_render : forall (pre : list str) (bs : list bdesc),
   Forall (fun l => is_hdr l = false) pre -> Forall wf_fblock bs ->
   read_graphs (pre ++ concat (map render_block bs)) = FRes (Ok (map denote bs)).
 Proof. exact read_render. Qed.
-Print Assumptions C20_read_render_partial.
+Print Assumptions C20_read_render.
 
 (* one block given to read_graph directly (cm = true: comment lines between the edge lines are skipped) *)
-Theorem C20_read_graph_render_partial : forall (cm : bool) (b : bdesc),
+Theorem C20_read_graph_render : forall (cm : bool) (b : bdesc),
   wf_block cm b -> read_graph (render_block b) = Ok (denote b).
 Proof. exact read_render_block. Qed.
-Print Assumptions C20_read_graph_render_partial.
+Print Assumptions C20_read_graph_render.
 
 (* what [denote] stores for the graph: exactly the listed endpoints and pairs, last listing decides the weight,
    n = number of nodes, m = number of edges; without repeated pairs the edge list is the listing *)
@@ -55,6 +56,27 @@ Theorem C20_graph_is_the_listing : forall (L : list wedge),
   (NoDup (map fst L) -> gi_edges G = L).
 Proof. exact graph_of_spec. Qed.
 Print Assumptions C20_graph_is_the_listing.
+
+(* what [denote] stores as width: the size of a largest antichain of items (edges between different strongly connected
+   components + one representative of every component that contains an edge; a, b comparable iff the end of one reaches
+   the start of the other) *)
+Theorem C20_stored_width_is_max_antichain : forall (L : list wedge),
+  let G := graph_of L in
+  let es := gi_edges G in
+  (forall a b, In (a, b) (items G) ->
+      (In (a, b) (map fst es) /\ ~ same_comp es a b) \/ (a = b /\ exists v, In (a, v) (map fst es) /\ same_comp es a v)) /\
+  (forall u v, In (u, v) (map fst es) ->
+      (~ same_comp es u v /\ In (u, v) (items G)) \/ (same_comp es u v /\ exists r, same_comp es u r /\ In (r, r) (items G))) /\
+  (exists A, subl A (items G) /\ antichain es A /\ length A = gi_w G) /\
+  (forall A, subl A (items G) -> antichain es A -> (length A <= gi_w G)%nat).
+Proof. exact width_spec. Qed.
+Print Assumptions C20_stored_width_is_max_antichain.
+
+(* the vertex count written in the file only matters through "is it 0": it is not stored *)
+Theorem C20_declared_count_is_not_stored : forall (b b' : bdesc),
+  b_items b = b_items b' -> b_body b = b_body b' -> b_n b <> 0%Z -> b_n b' <> 0%Z -> denote b = denote b'.
+Proof. exact denote_ignores_count. Qed.
+Print Assumptions C20_declared_count_is_not_stored.
 
 (* what [denote] stores for the constraints: one entry per distinct '#S' node sequence with at least two nodes *)
 Theorem C20_one_constraint_per_distinct_S_line : forall (items : list hitem),
@@ -303,15 +325,15 @@ Proof.
       * src (s "y") (s "x", s "y", d false 750 2).
 Qed.
 
-(* hence, by C20_read_render_partial, the model must return the three described graphs; it does: *)
+(* hence, by C20_read_render, the model must return the three described graphs; it does: *)
 Example C20_ex_result :
   read_graphs ex_file = FRes (Ok (map denote [ex_b1; ex_b2; ex_b3])) /\
   map denote [ex_b1; ex_b2; ex_b3] =
   [ {| gid := Some (s "graph 1  name = foo"); gcons := [[(s "a", s "b"); (s "b", s "c")]];
-       ginf := Some {| gi_nodes := [s "a"; s "b"; s "c"]; gi_edges := [(s "a", s "b", d true 25 2); (s "b", s "c", d false 2 0)]; gi_n := 3; gi_m := 2 |} |};
+       ginf := Some {| gi_nodes := [s "a"; s "b"; s "c"]; gi_edges := [(s "a", s "b", d true 25 2); (s "b", s "c", d false 2 0)]; gi_n := 3; gi_m := 2; gi_w := 1 |} |};
     {| gid := Some (s "empty"); gcons := []; ginf := None |};
     {| gid := None; gcons := [[(s "x", s "y")]];
-       ginf := Some {| gi_nodes := [s "x"; s "y"]; gi_edges := [(s "x", s "y", d false 750 2)]; gi_n := 2; gi_m := 1 |} |} ].
+       ginf := Some {| gi_nodes := [s "x"; s "y"]; gi_edges := [(s "x", s "y", d false 750 2)]; gi_n := 2; gi_m := 1; gi_w := 1 |} |} ].
 Proof. split; vm_compute; reflexivity. Qed.
 
 (* single-line corruptions of that file are rejected with the expected error *)
